@@ -28,26 +28,48 @@ import pipefunc.lazy as pflazy
 import pipegen
 import terms
 from terms import Term
+import c18_refuse
+import c18_cont
+import c18_multi
 
 PID = "C18"
-PROPS = ["PfModel.Props.C18"]
+PROPS = ["PfModel.Props.C18", "PfModel.Props.C18Calls", "PfModel.Props.C18Refused", "PfModel.Props.C18Cont", "PfModel.Props.C18Multi"]
 DRIVER = "C18"
+EXTRA_BUILD = ["PfModel.DriverC18Refuse", "PfModel.DriverC18Cont", "PfModel.DriverC18Multi"]   # imported by Driver/C18.lean only
 RULE = ("sessions on random DAGs of 1-6 term-building functions (nullary, tuple outputs, shared parameters, defaults, bound values, "
         "renames) built with lazy=True: 1-4 lazy calls (every output is requested across sessions; keyword sets are root arguments or "
         "a listed argument combination cutting through intermediates; whole-tuple requests), inside 0-2 construct_dag() blocks (several "
         "calls per block share nodes through the block's cache), each returned object evaluated 1 or 3 times in a random interleaving; "
-        "a malformed stream (surplus / missing keyword, unknown output, output as keyword) ends a session; container-subclass inputs and "
+        "a malformed stream (surplus / missing keyword, unknown output, output as keyword) ends a session; in the stream 'refused' "
+        "(harness/c18_refuse.py) refused calls of every kind (missing keyword for the first / a later parameter, surplus keyword, surplus "
+        "intermediate, unknown output, output as keyword, refused whole-tuple requests), inside and outside construct_dag() blocks, with and "
+        "without an own cache, are FOLLOWED by valid calls and evaluate()s: the counter, the node table (orphans included), graph and cache "
+        "after the raise are compared with PF.Lazy.lrunTopR, a refused call must invoke nothing and flip no _evaluated flag; container-subclass inputs and "
         "lazy objects as inputs are separate streams; 30 % of the sessions give the lazy pipeline a cache of its own (cache_type x cache=True "
         "flags), calls that share a block or a cache use the same / another value per keyword or cut through intermediates; per evaluate() the "
         "nodes whose _evaluated flag flips are compared with the call log and with the object's dependency closure; further streams: two "
         "pipelines (lazy+lazy, lazy+eager) in one block, Pipeline.func / full_output, map / NestedPipeFunc / containers of containers (crash-only); "
-        "a session is non-trivial when some call node has a lazy argument; distinct by (pipeline, ops)")
+        "for every request that can find nothing in a cache (the model says which: first request of a block, no / empty own cache) the invoked "
+        "functions among the request's own nodes after each evaluate() of its object must be the eager call log as a multiset "
+        "(C18_calls_eq_eager_later), the eager call log itself is compared with C02's runTop; "
+        "a session is non-trivial when some call node has a lazy argument; distinct by (pipeline, ops); container stream (harness/c18_cont.py): sessions of 1-4 lazy calls "
+        "followed by 1-4 steps evaluate_lazy(nested list/tuple/dict/set/frozenset/deque of returned objects, repeated objects, plain values; depth 0-3) or evaluate(), "
+        "compared with PF.Lazy.evaluateCont (Model/LazyCont.lean), plus Pipeline.func / PipeFunc-level calls / chained lazy pipelines / NestedPipeFunc against the eager twin; "
+        "stream multi (harness/c18_multi.py): 2-3 lazy pipelines (distinct random DAGs, 40 % with a twin = the same DAG with other function names) in one process, "
+        "3-8 well-formed calls interleaved inside one / across two blocks / outside any block, each object evaluated 0-2 times anywhere after its call, compared "
+        "with PF.Lazy.GSt (non-trivial when two pipelines are called inside one block)")
 ASSUMPTIONS = ["the pipeline's own cache (cache_type None/simple/lru/hybrid/disk x cache=True on none/some/all functions) is modelled below its size "
-               "limit (an unbounded most-recent-first list); what a refused call leaves in it is not modelled",
+               "limit (an unbounded most-recent-first list); what a refused call leaves in it is modelled in the stream 'refused' only (the main stream "
+               "ends the modelled session at the first refused call)",
+               "stream 'refused': every _LazyFunction construction is observed through an instrumented __init__ (the class attribute is replaced for "
+               "the duration of a session); all_results / used_parameters of a refused call are locals and not observed",
                "the theorems' hypothesis PF.PipeCache.WF (unique outputs, consistent defaults, acyclic) is evaluated by the driver on every case",
-               "several pipelines in one construct_dag() block, Pipeline.func / full_output / map / NestedPipeFunc are checked on the implementation only",
+               "several LAZY pipelines in one process / one construct_dag() block are modelled (PF.Lazy.GSt, stream multi); an eager pipeline inside a block and "
+               "Pipeline.func / full_output / map / NestedPipeFunc are checked on the implementation only",
                "lazy objects nested in user containers (evaluate_lazy/add_edge container recursion) are checked on the implementation only; "
                "the model's arguments are flat (a value or a node id)",
+               "the container stream models evaluate_lazy on list/tuple/dict/set trees (a set in the real set's iteration order, which the harness supplies); "
+               "container subclasses and what a PipeFunc-level call does with deferred arguments are checked on the implementation only",
                "values are uninterpreted terms; user functions do not raise",
                "ids are compared relative to _LazyFunction._counter at the start of the session"]
 
@@ -143,6 +165,7 @@ def run_session(desc, ops, cache=None):
                 eagers[i] = {"err": exc_enum(e)}
     base = _LazyFunction._counter
     obs, handles, table = [], [], {}
+    segs = []                  # per call: the ids [c0, c1) of the `_LazyFunction`s the request created
     known = {}                 # every `_LazyFunction` reachable from a returned object, by id
     cm = None
     tg = None
@@ -180,14 +203,18 @@ def run_session(desc, ops, cache=None):
                 before = len(log.names())
                 eager = eagers[opi]
                 flags0 = {i: lf._evaluated for i, lf in known.items()}
+                c0 = _LazyFunction._counter
                 try:
                     r = pipegen.quiet(p, out, **pykw)
                 except Exception as e:  # noqa: BLE001
                     handles.append(None)
+                    segs.append(None)
                     obs.append({"err": exc_enum(e), "eager": eager, "invoked": log.names()[before:]})
                     continue
                 handles.append(r)
-                o = {"eager": eager, "invoked": log.names()[before:], "type": type(r).__name__}
+                segs.append((c0, _LazyFunction._counter))
+                o = {"eager": eager, "invoked": log.names()[before:], "type": type(r).__name__,
+                     "seg": [c0 - base, _LazyFunction._counter - base]}
                 if isinstance(r, _LazyFunction):
                     o["ret"] = {"ref": r._id - base}
                     block_objs.append(r)
@@ -207,7 +234,11 @@ def run_session(desc, ops, cache=None):
                 try:
                     v = pipegen.quiet(r.evaluate)
                     flipped = [i for i, lf in known.items() if lf._evaluated and not flags[i]]
+                    lo, hi = segs[op["h"]] or (0, 0)
                     obs.append({"value": terms.enc(v), "log": log.names(), "new": log.names()[before:],
+                                # the user functions of the evaluated call nodes among the nodes this object's request created
+                                "seg_invoked": sorted(lf.func.__name__ for i, lf in known.items()
+                                                      if lo <= i < hi and lf._evaluated and isinstance(lf.func, PipeFunc)),
                                 # per node: the user functions of the nodes this evaluate() evaluated, the needed nodes it left
                                 # unevaluated, the nodes it evaluated without need
                                 "flipped": sorted(known[i].func.__name__ for i in flipped if isinstance(known[i].func, PipeFunc)),
@@ -417,6 +448,8 @@ def judge(ctx, case, impl, model):
 
     evaluated_calls = []          # names invoked so far according to the implementation
     handles = []
+    # (other streams call `judge` without a model: then the clause that needs the model's `fresh` flag is skipped)
+    mcalls = [mo for op, mo in zip(ops, model["ops"]) if op["op"] == "call"] if model is not None else None
     in_block = False
     calls_in_block = 0
     for op, ob in zip(ops, impl["ops"]):
@@ -473,6 +506,14 @@ def judge(ctx, case, impl, model):
                 bad(f"evaluate() evaluated the nodes of {ob['flipped']}; needed and not yet evaluated were those of {ob['was_needed']}")
             if "calls" in eager and not set(ob["new"]) <= set(eager["calls"]):
                 bad(f"evaluate() invoked {sorted(set(ob['new']) - set(eager['calls']))}, which the eager call does not need")
+            mh = mcalls[op["h"]] if mcalls is not None else {}
+            if mh.get("fresh") and "calls" in eager and "seg_invoked" in ob:
+                # C18_calls_eq_eager(_later): the request found nothing in a cache; whatever happened since, after evaluate() the invoked
+                # functions among the nodes the request created are exactly the eager run's, each once
+                ctx.count("fresh-object-evaluations")
+                if ob["seg_invoked"] != sorted(eager["calls"]):
+                    bad(f"after evaluate() the invoked functions among the nodes the request created are {ob['seg_invoked']}; "
+                        f"the eager call invokes {sorted(eager['calls'])}")
             if h.get("evaluated"):
                 if ob["new"]:
                     bad(f"a repeated evaluate() invoked {ob['new']} again")
@@ -526,6 +567,16 @@ def compare(case, impl, model):
                     diffs.append(f"op {i}: returned {a['ret']} vs model {b['ret']}")
                 if "value" in a["eager"] and b.get("den") != a["eager"]["value"]:
                     diffs.append(f"op {i}: the model's denotation of the returned object is not the eager value")
+                # (the streams of harness/c18_*.py reuse `compare` on observations without these fields)
+                if "eager" not in b or "seg" not in a or "seg" not in b:
+                    pass
+                elif ("err" in a["eager"]) != ("err" in b["eager"]):
+                    diffs.append(f"op {i}: the eager pipeline {'raises' if 'err' in a['eager'] else 'returns'}, the eager model (runTop) "
+                                 f"{'raises' if 'err' in b['eager'] else 'returns'}")
+                elif "calls" in a["eager"] and a["eager"]["calls"] != b["eager"]["calls"]:
+                    diffs.append(f"op {i}: eager call log {a['eager']['calls']} vs the eager model's {b['eager']['calls']}")
+                if "ref" in a["ret"] and "seg" in a and "seg" in b and a["seg"] != b["seg"]:
+                    diffs.append(f"op {i}: the request created the ids {a['seg']}, model {b['seg']}")
         elif k == "eval":
             if ("err" in a) != ("err" in b):
                 diffs.append(f"op {i}: evaluate {'raises' if 'err' in a else 'returns'}; model {'raises' if 'err' in b else 'returns'}")
@@ -534,6 +585,8 @@ def compare(case, impl, model):
                     diffs.append(f"op {i}: evaluate() value differs from the model")
                 if a["log"] != b["log"]:
                     diffs.append(f"op {i}: call log {a['log']} vs model {b['log']}")
+                if "seg_invoked" in a and "seg_invoked" in b and a["seg_invoked"] != sorted(b["seg_invoked"]):
+                    diffs.append(f"op {i}: invoked among the request's nodes {a['seg_invoked']} vs model {sorted(b['seg_invoked'])}")
     # (what a refused call leaves in the cache is not modelled: such a call ends the modelled session)
     if impl.get("own") != model.get("own") and not any("err" in o for o in impl["ops"]):
         diffs.append(f"the pipeline's own cache holds {impl.get('own')} entries, model {model.get('own')}")
@@ -571,6 +624,19 @@ def check_sessions(ctx, cases):
         for o in model["ops"]:
             if "spec" in o and o["spec"] is not None and o.get("den") != o["spec"]:
                 raise AssertionError("model denotation and specification disagree (extraction bug?)")
+        # instances of C18_calls_eq_eager / _later on the model's own run (the theorems say this cannot fail)
+        mcalls = [mo for op, mo in zip(c["ops"], model["ops"]) if op["op"] == "call"]
+        for mo in mcalls:
+            if mo.get("fresh"):
+                ctx.count("fresh-requests:" + ("whole" if mo.get("spec") is None else "name"))
+                if "calls" not in mo["eager"] or mo["created"] != mo["eager"]["calls"]:
+                    raise AssertionError("model: a fresh lazy request did not create one call node per eager invocation (extraction bug?)")
+            elif "ret" in mo:
+                ctx.count("cache-served-requests")
+        for op, mo in zip(c["ops"], model["ops"]):
+            if op["op"] == "eval" and "seg_invoked" in mo and mcalls[op["h"]].get("fresh"):
+                if sorted(mo["seg_invoked"]) != sorted(mcalls[op["h"]]["eager"]["calls"]):
+                    raise AssertionError("model: evaluate() of a fresh object did not invoke the eager call set (extraction bug?)")
         if c.get("cache"):
             # a pipeline with its own cache shares nodes between calls by design: no call is known to be fresh (exact call sets are not demanded);
             # the model (no own cache) does not apply, the property's clauses do
@@ -1127,9 +1193,20 @@ def _run(ctx):
     check_falsy_results(ctx, rng, ctx.n(30, 300))
     check_foreign(ctx, rng, ctx.n(40, 600))
     check_misc(ctx, rng, ctx.n(40, 600))
+    c18_refuse.check(ctx, rng, ctx.n(40, 800))
+    c18_cont.check(ctx, rng, ctx.n(40, 800))
+    c18_multi.check(ctx, rng, ctx.n(40, 800))
 
 
 def replay(ctx, case):
+    if case.get("stream") == "refused":
+        c18_refuse.replay_one(ctx, case)
+        return
+    if case.get("stream") == "cont":
+        return c18_cont.replay_one(ctx, case)
+    if case.get("stream") == "multi":
+        c18_multi.replay_one(ctx, case)
+        return
     if case.get("stream") == "container-input":
         x, y = CONTAINERS[case["x"]](), CONTAINERS[case["y"]]()
         print("eager:", observing_pipeline(False, [])("o", x=x, y=y))
